@@ -156,7 +156,9 @@ def chk_case(inp, c):
 
     def mech(base):
         return base if status in (None, "optimal") else f"{base}@{status}"
-    c.require(np.all(sc > 0), "both scales are positive", mechanism=mech("scales-nonpositive"), scales=sc)
+    zero_vertex = obj == "max" and np.all(sc >= 0) and np.any(sc == 0)
+    c.require(np.all(sc > 0), "both scales are positive",
+              mechanism=mech("scales-nonpositive" + (":max-objective-at-zero" if zero_vertex else "")), scales=sc)
     rngx = ubv - lbv
     viol = np.maximum(lbv - X, X - ubv)
     c.require(np.all(viol <= 1e-5 * rngx), "intensities within the bounds", mechanism=mech("bounds"), worst=float(np.max(viol)))
